@@ -178,7 +178,7 @@ def _replay_chunk(edge_ids):
         impl = Impl()
         try:
             hist = []
-            for pe_ in g.path_to(e["_s"]) + pre:
+            for pe_ in g.path_to(pre[0]["_s"] if pre else e["_s"]) + pre:
                 impl.step(pe_["act"])
                 hist.append(pe_["act"])
             got = impl.step(e["act"])
@@ -269,7 +269,7 @@ def _b1(chk: Check, consts, label):
     chk.cov["tlc_runs"][-1]["invariants"] = INVS
     g = Graph(recs)
     _G = g
-    ids = g.reachable_edges() + g.selfloop_pairs()
+    ids = g.reachable_edges() + g.merge_pairs(12000 if chk.tier == 'quick' else 72000)
     results = common.parallel_map(_replay_chunk, common.chunked(ids, common.NCPU * 8))
     chk.count(len(ids))
     chk.cov["traces_validated_against_impl"] += len(ids)
